@@ -377,7 +377,7 @@ func c27Gen(g *Gen) {
 			switch r.Intn(10) {
 			case 0, 1:
 				v, s, u, rt := c27RandField(r, 0), c27RandField(r, 1), c27RandField(r, 2), c27RandField(r, 3)
-				if r.Chance(3) {
+				if r.Intn(300) == 0 {
 					u = r.Bytes(Pick(r, []int{65535, 65536, 65537, 70000}))
 				}
 				t := Pick(r, []int64{0, 1, 1700000000, 1790000000, -1, 9223372036854775807, -9223372036854775808, int64(r.U64())})
